@@ -284,7 +284,7 @@ func (b *Buffer) WriteByte(c byte) error {
 // included to match bufio.Writer's WriteRune. The buffer is grown as needed;
 // if it becomes too large, WriteRune will panic with ErrTooLarge.
 func (b *Buffer) WriteRune(r rune) (n int, err error) {
-	if r < utf8.RuneSelf {
+	if uint32(r) < utf8.RuneSelf {
 		_ = b.WriteByte(byte(r))
 		return 1, nil
 	}
